@@ -215,8 +215,8 @@ func (g *Gen) expDigits() string {
 		e = 6176 + g.R.Range(-45, 45)
 	case 6:
 		e = g.R.N(7000)
-	case 7: // very large written exponents
-		return g.digits(g.R.Range(5, 12))
+	case 7: // very large written exponents (beyond any fixed-width counter)
+		return g.digits(g.R.Range(5, 26))
 	case 8: // around int16 wrap
 		e = 32768 + g.R.Range(-70, 70)
 		if g.R.P(1, 2) {
@@ -281,6 +281,8 @@ func (g *Gen) ValidLiteral(scan bool, underscores bool) string {
 		if g.R.P(1, 2) {
 			b.WriteString(g.litDigits(g.R.N(4), false))
 		}
+	case 3: // zero significand, any exponent
+		b.WriteString(strings.Repeat("0", g.R.Range(1, 3)))
 	default:
 		b.WriteString(g.litDigits(g.litLen(), us))
 	}
@@ -349,10 +351,41 @@ func (g *Gen) InvalidLiteral(scanAlphabetOnly bool) string {
 	return "1__0"
 }
 
+// ScanNearMiss builds a white-space free token that is not made of Scan's own
+// alphabet: look-alikes of Inf/NaN with a non-ASCII rune whose low byte is the
+// expected letter, special words with something attached, numerals followed
+// by other characters.
+func (g *Gen) ScanNearMiss() string {
+	sign := []string{"", "", "+", "-"}[g.R.N(4)]
+	word := []string{"inf", "nan", "Inf", "NaN", "INF", "NAN", "iNf", "nAn"}[g.R.N(8)]
+	switch g.R.N(7) {
+	case 0, 1: // a letter replaced by a rune with the same low byte
+		rs := []rune(word)
+		i := g.R.N(3)
+		rs[i] = rune(0x100*g.R.Range(1, 0x2ff)) + rs[i]
+		return sign + string(rs)
+	case 2: // a letter replaced by an arbitrary rune
+		rs := []rune(word)
+		rs[g.R.N(3)] = []rune{'1', 'x', 'é', 'ſ', 'İ', 'ı', 'K', 'ƒ', '０'}[g.R.N(9)]
+		return sign + string(rs)
+	case 3: // something attached to a special word
+		return sign + word + []string{"x", "inity", "1", ".", "f", "é", "_"}[g.R.N(7)]
+	case 4: // truncated special word
+		return sign + word[:g.R.Range(1, 2)] + []string{"", "x", "é"}[g.R.N(3)]
+	case 5: // numeral followed by other characters
+		return g.ValidLiteral(true, false) + []string{"x", "é", ",", "f", "p3", "İ", "%"}[g.R.N(7)]
+	}
+	// other characters in front
+	return []string{"x", "é", "$", "#", "０"}[g.R.N(5)] + g.ValidLiteral(true, false)
+}
+
 // Literal mixes valid and invalid strings.
 func (g *Gen) Literal(scan bool) string {
 	if len(g.lits) > 0 && g.R.P(1, 3) {
 		return g.lits[g.R.N(len(g.lits))]
+	}
+	if scan && g.R.P(1, 8) {
+		return g.ScanNearMiss()
 	}
 	if g.R.P(3, 4) {
 		return g.ValidLiteral(scan, true)
@@ -437,6 +470,9 @@ func (g *Gen) BigInt(maxBits int) *big.Int {
 	if bits <= 0 {
 		return new(big.Int)
 	}
+	if g.R.P(1, 6) {
+		return g.tieInt(bits)
+	}
 	words := (bits + 63) / 64
 	i := new(big.Int)
 	for w := 0; w < words; w++ {
@@ -458,6 +494,51 @@ func (g *Gen) BigInt(maxBits int) *big.Int {
 	case 1: // a Decimal-representable integer
 		c := g.coef()
 		i.Mul(c, ref.Pow10(g.R.N(80)))
+	}
+	if g.R.P(2, 5) {
+		i.Neg(i)
+	}
+	return i
+}
+
+// tieInt builds an integer that is an exact rounding tie at the 34- or
+// 35-digit boundary, optionally disturbed by one single digit somewhere far
+// below (the sticky information every reduction step has to carry along).
+func (g *Gen) tieInt(bits int) *big.Int {
+	maxDigits := bits * 30103 / 100000
+	if maxDigits < 40 {
+		maxDigits = 40
+	}
+	l := g.R.Range(33, 35)
+	head := g.digits(l)
+	if g.R.P(1, 2) { // even last digit: the tie goes down
+		b := []byte(head)
+		b[l-1] = "02468"[g.R.N(5)]
+		head = string(b)
+	}
+	zeros := g.R.N(maxDigits - l)
+	i, _ := new(big.Int).SetString(head+"5"+strings.Repeat("0", zeros), 10)
+	switch g.R.N(4) {
+	case 0: // exact tie
+	case 1: // one unit below: ...4999
+		i.Sub(i, big.NewInt(1))
+	default: // tie + d*10^p
+		if zeros > 0 {
+			d := int64(g.R.Range(1, 9))
+			p := g.R.N(zeros)
+			if g.R.P(1, 2) {
+				// digit positions at the edges of the chunks in which reduction
+				// loops typically work (1e9, 1e18, 1e19, 1e27, 1e38), and the
+				// digits that such chunk arithmetic treats specially
+				c := []int{9, 18, 19, 27, 38}[g.R.N(5)]
+				p = p/c*c + []int{0, c - 1}[g.R.N(2)]
+				if p >= zeros {
+					p = zeros - 1
+				}
+				d = []int64{1, 5, 5, 9}[g.R.N(4)]
+			}
+			i.Add(i, new(big.Int).Mul(big.NewInt(d), ref.Pow10(p)))
+		}
 	}
 	if g.R.P(2, 5) {
 		i.Neg(i)
